@@ -475,14 +475,241 @@ def replay_c20(path):
 
 
 # ---------------------------------------------------------------------------------------------
+# C21
+# ---------------------------------------------------------------------------------------------
+# values saved one after the other: [term, voted_for_id (0 = none), voted_for_term, committed]
+C21_VALUES = {
+    "quick": [[2, 0, 0, 0], [3, 1, 3, 0], [5, 0, 0, 0], [5, 2, 5, 1]],
+    "thorough": [[2, 0, 0, 0], [3, 1, 3, 0], [5, 0, 0, 0], [5, 2, 5, 1], [6, 2, 6, 0], [258, 0, 0, 0], [65536, 3, 65536, 1]],
+}
+
+
+def c21_mc(wd, dev, name):
+    cfg = os.path.join(wd, name + ".cfg")
+    dv.write_cfg(cfg, constants={"Vals": "{1,2,3}", "Dev": dv.tla_set(dev), "MaxSaves": 3,
+                                 "CrashKinds": dv.tla_set(["process", "power"])},
+                 invariants=["TypeOK", "C21_OldOrNew", "C21_ReturnedSurvivesProcessCrash"])
+    return dv.tlc_mc("MetaStore", cfg, wd, workers=2, timeout=600)
+
+
+def _load_images(wd, engine, dirs):
+    lst = os.path.join(wd, "load-%s.list" % engine)
+    out = os.path.join(wd, "load-%s.ndjson" % engine)
+    with open(lst, "w") as f:
+        f.write("\n".join(dirs) + "\n")
+    dv.run([dv.harness_bin("dv-store"), "metastore", "load", "--engine", engine, "--list", lst, "--out", out], timeout=1200)
+    res = {}
+    with open(out) as f:
+        for line in f:
+            r = json.loads(line)
+            res[r["dir"]] = r
+    return res
+
+
+def _outcome(r, values):
+    """0 = no state, k = k-th value, -1 = some other state, 'err: ..' = load failed"""
+    if r.get("err"):
+        return "err: " + str(r["err"])[:80]
+    if r["state"] is None:
+        return 0
+    return values.index(r["state"]) + 1 if r["state"] in values else -1
+
+
+def c21_file(wd, values):
+    """File meta store: system-call trace -> FsModel (TLC) -> crash images -> real loader."""
+    import store_fs
+    d = os.path.join(wd, "file", "meta")
+    os.makedirs(d)
+    tr = os.path.join(wd, "file-strace.txt")
+    cmd = [dv.harness_bin("dv-store"), "metastore", "run", "--engine", "file", "--dir", d, "--values", json.dumps(values)]
+    dv.run(store_fs.strace_cmd(tr, cmd), timeout=600)
+    events = store_fs.parse(tr, d)
+    marks = [e for e in events if e["e"] == "mark"]
+    if len(marks) != 2 * len(values):
+        raise dv.ToolError("strace trace has %d marks, expected %d" % (len(marks), 2 * len(values)))
+    # the steps of one save as the real code performed them (conformance information)
+    steps, inwin, written = [], False, {}
+    cur = None
+    for e in events:
+        if e["e"] == "mark":
+            inwin = e["w"] == "begin"
+            cur = e["v"]
+            if inwin:
+                steps.append([])
+                written[cur] = {}
+            continue
+        if inwin:
+            steps[-1].append(e["e"] + ("(%s)" % e.get("p") if e.get("p") else ""))
+            if e["e"] == "write":
+                written[cur][e["p"]] = written[cur].get(e["p"], []) + e["d"]
+    tp = os.path.join(wd, "file-events.ndjson")
+    with open(tp, "w") as f:
+        for e in events:
+            f.write(json.dumps(e) + "\n")
+    rc, out, dt = dv.tlc("MetaStoreTrace", os.path.join(dv.SPEC, "MetaStoreTrace.cfg"), wd, workers=1,
+                         env={"TRACE": tp}, timeout=900)
+    if '<<"DONE", %d>>' % len(events) not in out:
+        raise dv.ToolError("trace judge did not reach the end of the trace:\n" + out[-3000:])
+    st = dv.tlc_stats(out)
+    images = [json.loads(_unescape(m.group(1))) for m in re.finditer(r'^<<"IMAGE", "(.*)">>$', out, re.M)]
+    dirs = []
+    for n, im in enumerate(images):
+        files = im["img"] if isinstance(im["img"], dict) else {}
+        dd = os.path.join(wd, "file-img", str(n))
+        os.makedirs(dd)
+        for name, content in files.items():
+            with open(os.path.join(dd, name), "wb") as f:
+                f.write(bytes(content))
+        im["dir"] = dd
+        im["files"] = files
+        dirs.append(dd)
+    loaded = _load_images(wd, "file", dirs)
+    encs = {k: v for k, v in written.items()}
+    viol, rows = [], []
+    for im in images:
+        o = _outcome(loaded[im["dir"]], values)
+        im["outcome"] = o
+        fl = im["files"].get("hard_state.bin")
+        if fl is None:
+            shape = "absent-file"
+        elif not fl:
+            shape = "empty-file"
+        elif any(fl == encs[k].get("hard_state.bin") or fl == encs[k].get("hard_state.tmp") for k in encs):
+            shape = "complete-record"
+        else:
+            shape = "partial-record"
+        im["shape"] = shape
+        rows.append(im)
+        if o not in im["allowed"]:
+            loads = "no-state" if o == 0 else ("error" if isinstance(o, str) else "other-value")
+            mon = "OldOrNew" if im["phase"] == "during" else ("ReturnedValueSurvivesProcessCrash" if im["kind"] == "process"
+                                                              else "OldOrNewAfterReturn")
+            viol.append({"p": "C21", "m": "File." + mon, "cause": "%s-crash:%s:loads-%s" % (im["kind"], shape, loads),
+                         "image": {k: im[k] for k in ("at", "kind", "phase", "allowed", "strict", "files", "outcome")},
+                         "engine_under_test": "file"})
+    return dict(events=events, steps=steps, images=rows, viol=viol, judge_states=st["distinct"],
+                observed_dev=sorted((["RewriteInPlace"] if any("open(hard_state.bin)" in s for s in steps) else []) +
+                                    ([] if any(x.startswith("fsync") for s in steps for x in s) else ["NoFsync"])))
+
+
+def c21_rocksdb(wd, values):
+    """RocksDB meta store: image of the data directory after every returned save (killed process), and the
+    directory the process leaves when it exits without running destructors."""
+    d = os.path.join(wd, "rocksdb", "db")
+    copies = os.path.join(wd, "rocksdb", "copies")
+    os.makedirs(d)
+    os.makedirs(copies)
+    dv.run([dv.harness_bin("dv-store"), "metastore", "run", "--engine", "rocksdb", "--dir", d, "--values",
+            json.dumps(values), "--copy-after-each", copies], timeout=600)
+    dirs = [os.path.join(copies, "after%d" % (k + 1)) for k in range(len(values))] + [d]
+    loaded = _load_images(wd, "rocksdb", dirs)
+    viol, rows = [], []
+    for k, dd in enumerate(dirs):
+        want = min(k + 1, len(values))
+        o = _outcome(loaded[dd], values)
+        rows.append({"at": "after save %d returned" % want, "kind": "process", "allowed": [want], "outcome": o})
+        if o != want:
+            loads = "no-state" if o == 0 else ("error" if isinstance(o, str) else "other-value")
+            viol.append({"p": "C21", "m": "RocksDB.ReturnedValueSurvivesProcessCrash",
+                         "cause": "process-crash:after-return:loads-%s" % loads,
+                         "image": rows[-1], "engine_under_test": "rocksdb"})
+    return dict(images=rows, viol=viol)
+
+
+def check_c21(tier):
+    t0 = time.time()
+    values = C21_VALUES[tier]
+    wd = dv.workdir("store-C21")
+    dv.build_harness("dv-store")
+    # design level: the repaired procedure satisfies the property, under both crash kinds
+    mc = c21_mc(wd, [], "meta-repaired")
+    if not mc["ok"]:
+        raise dv.ToolError("MetaStore.tla with Dev = {} violates %s" % mc["violated"])
+    fr = c21_file(wd, values)
+    rr = c21_rocksdb(wd, values)
+    # what the model predicts for the deviations observed in the system-call trace
+    pred = c21_mc(wd, fr["observed_dev"], "meta-observed") if fr["observed_dev"] else {"violated": [], "distinct": 0, "generated": 0}
+    viol = fr["viol"] + rr["viol"]
+    known_hits, new = dv.classify("C21", viol, known=known())
+    replay_paths = []
+    seen = set()
+    for v in new:
+        key = (v["m"], v["cause"])
+        if key in seen:
+            continue
+        seen.add(key)
+        replay_paths.append(dv.save_replay("C21", {"engine": "store", "property": "C21", "tier": tier, "values": values,
+                                                   "engine_under_test": v["engine_under_test"], "monitor": v["m"],
+                                                   "cause": v["cause"], "image": v["image"]}))
+    causes = {}
+    for v in viol:
+        k = "%s/%s" % (v["m"], v["cause"])
+        causes[k] = causes.get(k, 0) + 1
+    imgs = fr["images"]
+    distinct = {json.dumps([im["kind"], im["phase"], im["files"], im["allowed"]], sort_keys=True) for im in imgs}
+    samples = [{"engine": "file", "crash_after_event": im["at"], "kind": im["kind"], "phase": im["phase"],
+                "files": {k: len(v) for k, v in im["files"].items()}, "shape": im["shape"],
+                "allowed_values": im["allowed"], "loaded": im["outcome"]} for im in imgs[:1] + imgs[len(imgs) // 2:len(imgs) // 2 + 3]]
+    samples.append({"engine": "rocksdb", **rr["images"][0]})
+    cov = {
+        "states": mc["distinct"] + fr["judge_states"], "transitions": mc["generated"] + fr["judge_states"],
+        "traces_validated_against_impl": 2,
+        "evaluations": len(imgs) + len(rr["images"]), "distinct_nontrivial": len(distinct) + len(rr["images"]),
+        "rule": "File: the system calls of FileMetaStore::save_hard_state (strace) for the value sequence below are replayed "
+                "on FsModel.tla by TLC (MetaStoreTrace.tla); at every call boundary from the start of a save to just after "
+                "its return TLC emits the image a process crash leaves and every image a power loss can leave (stable "
+                "entries/contents, plus torn appends) with the set of values the property allows; each image is "
+                "materialised and loaded by a fresh FileMetaStore. RocksDB: copy of the data directory after every "
+                "returned save (killed process) and the directory left by an exit without destructors, loaded by a fresh "
+                "engine. distinct_nontrivial = distinct (crash kind, phase, file contents, allowed set) images + RocksDB images",
+        "samples": samples,
+        "values_saved": values,
+        "file_save_steps_observed": fr["steps"][:2],
+        "file_deviations_observed": fr["observed_dev"],
+        "model_checking": {"repaired_design": {"Dev": [], "distinct_states": mc["distinct"], "generated": mc["generated"], "ok": mc["ok"]},
+                           "observed_design": {"Dev": fr["observed_dev"], "violated": pred["violated"],
+                                               "distinct_states": pred["distinct"]}},
+        "file_images": len(imgs), "rocksdb_images": len(rr["images"]),
+        "violating_images_by_cause": causes,
+        "known_findings_hit": sorted({"%s/%s/%s" % (k["property"], k["monitor"], k["cause"]) for k, _ in known_hits}),
+        "exhaustive": True,
+    }
+    dv.write_evidence("C21", tier, "model_checking", cov,
+                      ["crash points = system-call boundaries seen by strace (a call is atomic for a process crash)",
+                       "power loss = FsModel.tla: only fsync'ed contents and directory entries are guaranteed; appended but "
+                       "unsynced bytes may survive as any prefix",
+                       "RocksDB: no crash point inside a save call and no power-loss image (atomicity of a WAL record and "
+                       "WAL sync behaviour are trusted to RocksDB); first value of a store has allowed set {none, new}",
+                       "exhaustive over the call boundaries of the traced save sequence, not over all value sequences"],
+                      time.time() - t0, len(new))
+    rc = dv.finish("C21", known_hits, new, replay_paths)
+    shutil.rmtree(wd, ignore_errors=True)
+    return rc
+
+
+def replay_c21(path):
+    with open(path) as f:
+        payload = json.load(f)
+    values = payload["values"]
+    wd = dv.workdir("replay-C21")
+    dv.build_harness("dv-store")
+    viol = (c21_file(wd, values)["viol"] if payload["engine_under_test"] == "file" else c21_rocksdb(wd, values)["viol"])
+    for v in viol:
+        print("reproduced: %s/%s %s" % (v["m"], v["cause"], json.dumps(v["image"])[:400]))
+    known_hits, new = dv.classify("C21", viol, known=known())
+    shutil.rmtree(wd, ignore_errors=True)
+    return dv.finish("C21", known_hits, new, [path] if new else [])
+
+
+# ---------------------------------------------------------------------------------------------
 # registry
 # ---------------------------------------------------------------------------------------------
 _TECH = "TLA+/TLC model-based testing: TLC enumerates the reference specification's state graph and is the oracle; "\
         "dv-store replays its paths into the real component and compares every observation"
 
-CHECKS = {"C19": (check_c19, replay_c19), "C20": (check_c20, replay_c20)}
+CHECKS = {"C19": (check_c19, replay_c19), "C20": (check_c20, replay_c20), "C21": (check_c21, replay_c21)}
 
-PROPS.update({"C19": {"spec": "BufLog.tla"}, "C20": {"spec": "LogStore.tla"}})
+PROPS.update({"C19": {"spec": "BufLog.tla"}, "C20": {"spec": "LogStore.tla"}, "C21": {"spec": "MetaStore.tla"}})
 MANIFEST_INFO.update({
     "C19": dict(technique=_TECH, category="model_checking",
                 text="buffered log == plain log: TLC emits the complete state graph of the plain-log reference "
@@ -503,6 +730,18 @@ MANIFEST_INFO.update({
                 note="trusted: TLC, the reference store in LogStore.tla, directory copy at call boundaries as process-crash "
                      "image; crash points inside one store call and power-loss images are not covered; bounds in the "
                      "evidence file; random walks plus all paths up to the stated depth, not exhaustive",
+                ref="design_parts/store.md"),
+    "C21": dict(technique=_TECH + "; system-call traces (strace) of the real save path judged by TLC over a file-system model",
+                category="model_checking",
+                text="saved term and vote: MetaStore.tla model-checks save_hard_state as file-system steps over FsModel.tla "
+                     "(process crash / power loss at every step; the repaired procedure must satisfy the property); the "
+                     "system calls of the real FileMetaStore::save_hard_state are replayed on the same FsModel by TLC "
+                     "(MetaStoreTrace.tla), which emits every crash image with the set of values the property allows; "
+                     "each image is materialised and loaded by a fresh real store; RocksDBMetaStore is checked on "
+                     "copies of its directory after every returned save",
+                note="trusted: TLC, FsModel.tla (what survives a process crash / power loss), strace as observer of the "
+                     "write path; RocksDB: only call-boundary process-crash images (no crash point inside a save, no "
+                     "power-loss image); value sequence as listed in the evidence file",
                 ref="design_parts/store.md"),
 })
 
